@@ -241,7 +241,7 @@ impl<'a> Dec<'a> {
             }
             // elements with an empty encoding: the count is not bounded by the window; the model does not
             // materialise millions of units (the library's behaviour on such input is known finding D9)
-            if n as usize > (self.end - self.pos) + 65_536 && elem.may_encode_empty() {
+            if n as usize > (self.end - self.pos) + (1 << 20) && elem.may_encode_empty() {
                 return err(ErrKind::Unsupported, format!("{n} zero-width elements"));
             }
             for _ in 0..n {
